@@ -660,7 +660,7 @@ def cases(rng, tier):
                     for xctx in ("none", "default", "nocheck", "pyopenssl"):
                         out.append(dict(base, route="https_tunnel", cert_reqs=cr, assert_hostname="unset", fingerprint="unset", context="none", issuer="trusted",
                                         san=["localhost"], proxy={"issuer": xi, "san": xsan, "assert_hostname": xah, "fingerprint": xfp, "context": xctx}))
-    for _ in range(400 if tier == "quick" else 20000):
+    for _ in range(1200 if tier == "quick" else 20000):
         out.append(one_case(rng))
     return out
 
